@@ -1,4 +1,5 @@
 import Lmd.Props.C11
+import Lmd.Props.C11Seq
 #print axioms Lmd.C11.init_all_or_nothing
 #print axioms Lmd.C11.served_old_or_new
 #print axioms Lmd.C11.new_set_is_backend
@@ -9,3 +10,15 @@ import Lmd.Props.C11
 #print axioms Lmd.C11.restart_stops_list
 #print axioms Lmd.C11.restart_rebuilds
 #print axioms Lmd.C11.failed_rebuild_remembers_restart
+#print axioms Lmd.C11Seq.step_old_or_new
+#print axioms Lmd.C11Seq.query_never_rebuilds
+#print axioms Lmd.C11Seq.run_served_one_build
+#print axioms Lmd.C11Seq.run_served
+#print axioms Lmd.C11Seq.inplace_keeps_object_counts
+#print axioms Lmd.C11Seq.run_served_object_counts
+#print axioms Lmd.C11Seq.status_restart_required
+#print axioms Lmd.C11Seq.restart_required_serves_new_set
+#print axioms Lmd.C11Seq.status_restart_serves_new_set
+#print axioms Lmd.C11Seq.count_restart_serves_new_set
+#print axioms Lmd.C11Seq.status_restart_persists
+#print axioms Lmd.C11Seq.tick_restart_serves_new_set
